@@ -68,6 +68,11 @@ WITNESS = {
             "value equality on union types ignores the member type: UnionDatatypeValidator::compare and its enumeration "
             "check accept a pair as equal when ANY member type validates both literals and compares them equal, so the "
             "boolean literal 'true' matches the enumerated integer 1 (and 0 matches false) for a union of int and boolean"),
+    "F39": (["xsc dateTime " + G.hx("-0012-01-01T00:00:00")], ["ok " + G.hx("-12-01-01T00:00:00")], "f39",
+            "canonical representation of a negative year: XMLDateTime::fillYearString pads with zeros from the text length "
+            "INCLUDING the sign, so -0012 is written '-12' (not a legal year) and a one-digit negative year writes one "
+            "character more than the caller allocated (getDateCanonicalRepresentation: heap overflow by one XMLCh, seen "
+            "as `free(): invalid next size` on `can date -0001-12-31Z`)"),
     "F12": (["xsv base64Binary " + G.hx("\u0141AAA"), "pe base64Binary " + G.hx("\u0141AAA"),
              "xsv base64Binary " + G.hx("AAAA\u0100!!")], ["1", "valid", "1"], "f12",
             "base64Binary narrows UTF-16 code units to bytes: a character >= U+0100 whose low byte is a base64 letter is "
@@ -156,6 +161,12 @@ def run(ctx):
         triples = []
     else:
         cases, pools = G.gen_cases(ctx.rng, ctx.tier)
+    if mode.get("f39") == 0 and not ctx.replay:
+        # while finding F39 is present, canonical forms of negative-year DATES overflow a heap buffer in the library:
+        # those requests would corrupt the harness process, they are left out (stated in the evidence)
+        before = len(cases)
+        cases = [c for c in cases if not G.f39_overflow(c[1])]
+        ctx.coverage["left_out_because_of_F39_heap_overflow"] = before - len(cases)
     lines = [c[1] for c in cases]
     rc1, impl, err1 = run_bin(xh, setlines + lines)
     rc2, model, err2 = run_bin(xm, setlines + lines)
